@@ -79,7 +79,7 @@ func verdict(prop string, w *World, r *Result) *Violation {
 	mk := func(sig, detail string) *Violation {
 		return &Violation{Property: prop, Sig: sig, Detail: detail + "\n" + tail(r.Stdout, 14), Worlds: []*World{w}, Mode: "verdict:" + prop, Expect: []string{digest(r)}}
 	}
-	if r.Exit == -1 || r.Exit == -2 {
+	if r.Exit < 0 {
 		return nil // C12's to report
 	}
 	viol := gen.ScopeViolations(cfg)
@@ -165,11 +165,13 @@ func init() {
 	}
 }
 
-// enumShape returns configuration j of the exhaustive family of C05: 4 three-service shapes x all
+// enumShape returns configuration j of the exhaustive family of C05: 6 small shapes x all
 // 4^3 assignments of {unset, shared, contextual, non_shared} to (a, b, c).
 func enumShape(j int) *gen.Cfg {
 	scopes := []string{"", "shared", "contextual", "non_shared"}
-	shape, as := j%4, j/4 // interleaved, so that any prefix covers all four shapes
+	// a fixed permutation of the family, so that any prefix samples all shapes and assignments
+	j = (j * 37) % EnumFamily
+	shape, as := j%6, j/6
 	sc := []string{scopes[as%4], scopes[(as/4)%4], scopes[(as/16)%4]}
 	fx := `"` + gen.FxPath + `"`
 	node := func(name string, scope string, args ...gen.Arg) gen.Svc {
@@ -177,7 +179,7 @@ func enumShape(j int) *gen.Cfg {
 	}
 	ref := func(n string) gen.Arg { return gen.Arg{Kind: "svc", S: n} }
 	c := &gen.Cfg{}
-	switch shape % 4 {
+	switch shape {
 	case 0: // chain through constructor arguments
 		c.Services = []gen.Svc{node("a", sc[0], ref("b")), node("b", sc[1], ref("c")), node("c", sc[2])}
 	case 1: // fan-out, one edge through a field, one through a call
@@ -196,9 +198,25 @@ func enumShape(j int) *gen.Cfg {
 		b.Calls = []gen.Call{{Method: "WithA", Args: []gen.Arg{ref("c")}, Wither: true}}
 		c.Services = []gen.Svc{a, b, node("c", sc[2])}
 		c.Decorators = []gen.Dec{{Tag: "t", Fn: fx + ".Decorate", Args: []gen.Arg{ref("b")}}}
+	case 4, 5: // two decorators on two tags: a carries only t1 (decorated with b); c sits behind the decorator of t0
+		a := node("a", sc[0])
+		a.Tags = []gen.Tag{{Name: "t1"}}
+		other := node("z", "")
+		other.Tags = []gen.Tag{{Name: "t0"}}
+		c.Services = []gen.Svc{a, node("b", sc[1]), node("c", sc[2]), other}
+		d0 := gen.Dec{Tag: "t0", Fn: fx + ".Decorate", Args: []gen.Arg{ref("c")}}
+		d1 := gen.Dec{Tag: "t1", Fn: fx + ".Decorate", Args: []gen.Arg{ref("b")}}
+		if shape == 4 {
+			c.Decorators = []gen.Dec{d0, d1}
+		} else {
+			c.Decorators = []gen.Dec{d1, d0}
+		}
 	}
 	return c
 }
+
+// EnumFamily is the size of the exhaustive C05 family: 6 shapes x 4^3 scope assignments.
+const EnumFamily = 6 * 64
 
 // enumCfg15 is the small configuration whose histories C15 enumerates exhaustively.
 func enumCfg15() *gen.Cfg {
